@@ -41,7 +41,8 @@ META = {
         "nested_render_text (or helpers only they call); the mocks' nested entry points hand the text they were given to "
         "nested_render_text in the parsing mode (block/inline) of the docutils contract. "
         "R2 sibling fences: render_fence and render_colon_fence derive (name, arguments) from token.info by the same operations "
-        "(locals, tuple unpacking, straight-line helpers, classmethods and NamedTuple/dataclass records are inlined), guard the "
+        "(locals by kill-aware reaching definitions, tuple unpacking, straight-line helpers, classmethods and NamedTuple/dataclass "
+        "records are inlined), guard the "
         "shared `{name}` route by the same test, hand over their own, unmodified token, and render_directive forwards "
         "name/arguments/token.content to run_directive under the matching parameters. "
         "R3 node context: MockState.nested_parse renders beneath its node argument (not appended), MockInliner.parse into a "
@@ -57,11 +58,15 @@ META = {
         "insertion, and their keys are not computed relative to state that the same code swaps for the nested render, nor "
         "reduced to a file name. "
         "R5 result fields: the fields of DirectiveParsingResult reach the directive constructor, the include mock and "
-        "parse_directive_block under the matching keyword/position; the construction sites are followed into helpers that "
+        "parse_directive_block under the matching keyword/position (arguments/options by provenance: the value is the field or is "
+        "computed from that field alone, e.g. with defaults merged underneath); the construction sites are followed into helpers that "
         "receive the parsing result (parameter names substituted, two levels). "
         "R6 text conservation: on every data-flow path from the inserted text (directive content, block handed to nested_parse / "
         "inliner.parse, text read for an include, value rendered by the substitution template) to the nested parse no "
-        "character-changing operation (strip family, expandtabs, replace, dedent, escape, re.sub ...) is applied - followed "
+        "character-changing operation (strip family, expandtabs, replace, dedent, escape, re.sub ..., and a universal-newline "
+        "line split - str.splitlines() or a helper that does it - which turns form feed, \\x1c-\\x1e, \\x85, U+2028/9 into line "
+        "ends once the pieces are re-joined; a split at '\\n' only, direct or through a helper recognised by what it does, is "
+        "the accepted form) is applied - followed "
         "through package helpers the text passes through (parameters bound to the carrying arguments; tuple elements, record "
         "fields and `return helper(...)` delegation tracked individually, so that e.g. dedent() of the option block does not "
         "count against the body) - uses whose "
@@ -79,8 +84,8 @@ META = {
         "told from the start/end options of include), lossy marker keys other than relpath/relative_to/basename/.name/.stem, "
         "exceptions raised by statements outside a try (the CFG has exception edges only inside try bodies), `{eval-rst}` being "
         "dispatched by the back-tick fence only (its body is rST, outside the property's wrappers). Whether an option block is "
-        "looked for at all (truthiness vs None test of option_spec) belongs to the directive-text split and is decided by C08.R4, "
-        "not here."
+        "looked for at all (truthiness vs None test of option_spec) and where the option block ends (the terminator regex and the "
+        "slice after it) belong to the directive-text split and are decided by C08.R4 / C08.R6, not here."
     ),
     "trusted_base": [
         "CPython ast",
@@ -192,30 +197,38 @@ def _deref(e: ast.expr | None, fi: FunctionInfo, depth: int = 0) -> ast.expr | N
     return e
 
 
-def _reaching_single_def(fi: FunctionInfo, name: str, use_stmt) -> ast.expr | None:
-    """The value of the only simple ``name = value`` that reaches ``use_stmt`` (None if not unique)."""
+def _reaching_def(fi: FunctionInfo, name: str, use_stmt):
+    """(statement, value) of the only simple ``name = value`` that reaches ``use_stmt`` - a later definition kills an
+    earlier one (``x = f(); x = x.strip()``) - or None when it is not unique / not a plain assignment."""
     defs = _local_defs(fi, name)
     if not defs:
         return None
     cfg = get_cfg(fi)
+    def_stmts = [st for st, _ in defs]
     reaching = []
     for st, v in defs:
+        others = {id(x) for x in def_stmts if x is not st and x is not use_stmt}
+        if st is use_stmt:
+            if st in cfg.loops:
+                return None  # inside a loop the statement's own definition reaches its right-hand side: not modelled
+            continue
+        if not cfg.paths_avoiding(st, use_stmt, lambda n: id(n) in others):
+            continue
         if isinstance(st, ast.Assign) and len(st.targets) == 1 and isinstance(st.targets[0], ast.Tuple) and all(isinstance(x, ast.Name) for x in st.targets[0].elts):
             # a, b = f(x)  ->  a is f(x)[0]
             idx = [x.id for x in st.targets[0].elts].index(name)
             v = ast.Subscript(v, ast.Constant(idx), ast.Load())
         elif not (isinstance(st, ast.Assign) and len(st.targets) == 1 and isinstance(st.targets[0], ast.Name)):
-            # loops / with-as / augmented: give up on this name if such a def can reach the use
-            if use_stmt in cfg.reachable_from(st):
-                return None
-            continue
-        if st is use_stmt:
-            continue
-        if use_stmt in cfg.reachable_from(st):
-            reaching.append((st, v))
+            return None  # loops / with-as / augmented assignment reach the use
+        reaching.append((st, v))
     if len(reaching) == 1 and cfg.dominates(reaching[0][0], use_stmt):
-        return reaching[0][1]
+        return reaching[0]
     return None
+
+
+def _reaching_single_def(fi: FunctionInfo, name: str, use_stmt) -> ast.expr | None:
+    r = _reaching_def(fi, name, use_stmt)
+    return r[1] if r is not None else None
 
 
 class _Inliner(ast.NodeTransformer):
@@ -227,11 +240,12 @@ class _Inliner(ast.NodeTransformer):
             return ast.Name("TOKEN", ast.Load())
         if n.id in self.fi.params or self.depth > 8:
             return n
-        v = _reaching_single_def(self.fi, n.id, self.use_stmt)
-        if v is None:
+        r = _reaching_def(self.fi, n.id, self.use_stmt)
+        if r is None or r[0] is self.use_stmt:
             return n
-        fresh = ast.parse(unparse(v), mode="eval").body
-        return _Inliner(self.fi, self.use_stmt, self.tok, self.depth + 1).visit(fresh)
+        fresh = ast.parse(unparse(r[1]), mode="eval").body
+        # names inside the defining expression are resolved at the defining statement
+        return _Inliner(self.fi, r[0], self.tok, self.depth + 1).visit(fresh)
 
     def visit_IfExp(self, n: ast.IfExp):
         self.generic_visit(n)
@@ -323,6 +337,14 @@ def _record_fields(call: ast.Call, fi: FunctionInfo):
     return fields, vals
 
 
+_CORPUS: Corpus | None = None  # the corpus under analysis (set on entry of every rule / of mutants())
+
+
+def _use(corpus: Corpus) -> None:
+    global _CORPUS
+    _CORPUS = corpus
+
+
 def _package_callee(call: ast.Call, fi: FunctionInfo) -> FunctionInfo | None:
     """The single package function a ``self.m(...)`` / ``f(...)`` call resolves to (by name; the call may be a re-parsed copy)."""
     mod = fi.module
@@ -336,6 +358,13 @@ def _package_callee(call: ast.Call, fi: FunctionInfo) -> FunctionInfo | None:
         return None
     if isinstance(f, ast.Name) and f.id in mod.functions:
         return mod.functions[f.id]
+    if isinstance(f, ast.Name) and f.id in mod.imports and _CORPUS is not None and not _local_defs(fi, f.id) and f.id not in fi.params:
+        # a function imported from another module of the package
+        full = mod.imports[f.id]
+        modname, _, attr = full.rpartition(".")
+        m2 = _CORPUS.modules.get(modname)
+        if m2 is not None and attr in m2.functions:
+            return m2.functions[attr]
     if isinstance(f, ast.Attribute) and isinstance(f.value, ast.Name) and f.value.id in mod.classes and f.attr in mod.classes[f.value.id].methods:
         return mod.classes[f.value.id].methods[f.attr]
     return None
@@ -542,6 +571,7 @@ def _receiver_kind(call: ast.Call, fi: FunctionInfo, corpus: Corpus) -> tuple[st
 
 @rule("C06.R1")
 def r1_one_engine(corpus: Corpus, rep: Report, tier: str):
+    _use(corpus)
     rep.rule("C06.R1", "render code enters markdown-it only in nested_render_text, on self.md with self.md_env; every nested entry funnels through it")
     g = get_callgraph(corpus)
     base = corpus.mod("mdit_to_docutils.base")
@@ -929,6 +959,7 @@ def _cmp_exprs(rep: Report, what: str, a_fi, a: ast.AST | None, b_fi, b: ast.AST
 
 @rule("C06.R2")
 def r2_sibling_fences(corpus: Corpus, rep: Report, tier: str):
+    _use(corpus)
     rep.rule("C06.R2", "back-tick and colon fences derive (name, arguments) identically, pass the unmodified token, and render_directive forwards name/arguments/token.content under the matching parameters")
     g = get_callgraph(corpus)
     fence = corpus.func(f"{RENDERER}.render_fence")
@@ -1059,6 +1090,7 @@ def _truthy_const(e: ast.expr | None) -> bool | None:
 
 @rule("C06.R3")
 def r3_node_context(corpus: Corpus, rep: Report, tier: str):
+    _use(corpus)
     rep.rule("C06.R3", "nested_parse renders beneath its node argument; inliner.parse into a fresh container whose children it returns; include/substitution in place; current_node_context switches and restores")
     g = get_callgraph(corpus)
     nrt = corpus.func(f"{RENDERER}.nested_render_text")
@@ -1225,6 +1257,7 @@ def _guard_sig(cfg, st) -> list[str]:
 
 @rule("C06.R4")
 def r4_state_restored(corpus: Corpus, rep: Report, tier: str):
+    _use(corpus)
     rep.rule("C06.R4", "state changed around a nested render (heading offset, level map, temp root, document source, reporter, md_env keys) is restored to the value saved before it; in-progress markers are removed on every exit and keyed depth-independently")
     base = corpus.mod("mdit_to_docutils.base")
     nrt = corpus.func(f"{RENDERER}.nested_render_text")
@@ -1693,12 +1726,87 @@ def _is_pathlike(e: ast.Name, fi: FunctionInfo) -> bool:
 # R5 parsing-result fields reach the directive under the matching keyword
 
 
+def _is_newline_split(n: ast.AST) -> bool:
+    """``x.split("\\n")`` - the pieces between line feeds, nothing else."""
+    return (
+        isinstance(n, ast.Call)
+        and isinstance(n.func, ast.Attribute)
+        and n.func.attr == "split"
+        and len(n.args) == 1
+        and not n.keywords
+        and isinstance(n.args[0], ast.Constant)
+        and n.args[0].value == "\n"
+    )
+
+
+def _is_splitlines(n: ast.AST) -> bool:
+    return isinstance(n, ast.Call) and isinstance(n.func, ast.Attribute) and n.func.attr == "splitlines" and not n.args and not n.keywords
+
+
+def _line_splitter(h: FunctionInfo | None) -> str | None:
+    """'\\n' / 'universal' when the package function returns the lines of its (single) text argument and does nothing
+    else to them than dropping the trailing empty piece; None otherwise.  Judged by what the function does, not its name."""
+    if h is None or h.is_lambda:
+        return None
+    pp = _pos_params(h)
+    if len(pp) != 1:
+        return None
+    rets = [r.value for r in h.local_nodes() if isinstance(r, ast.Return) and r.value is not None]
+    if not rets:
+        return None
+    kinds = set()
+    for r in rets:
+        found = None
+        for e in _def_closure([r], h):
+            for x in ast.walk(e):
+                if (_is_newline_split(x) or _is_splitlines(x)) and isinstance(x.func.value, ast.Name) and x.func.value.id == pp[0]:
+                    found = "\n" if _is_newline_split(x) else "universal"
+        if found is None:
+            return None
+        kinds.add(found)
+    for n in h.local_nodes():
+        if isinstance(n, ast.Call) and isinstance(n.func, ast.Attribute):
+            if n.func.attr in NORMALISING_METHODS or n.func.attr in ("append", "insert", "extend", "remove", "sort", "reverse", "clear"):
+                return None
+            if n.func.attr == "pop" and not (not n.args or (isinstance(n.args[0], ast.UnaryOp) and unparse(n.args[0]) == "-1")):
+                return None
+        if isinstance(n, ast.Call) and (dotted(n.func) or "").split(".")[-1] in NORMALISING_FUNCS:
+            return None
+    return "universal" if "universal" in kinds else "\n"
+
+
+def _splits_lines(n: ast.AST, fi: FunctionInfo) -> str | None:
+    """Kind of line split performed by the expression node (direct method call or a package helper modelled as one)."""
+    if _is_newline_split(n):
+        return "\n"
+    if _is_splitlines(n):
+        return "universal"
+    if isinstance(n, ast.Call):
+        return _line_splitter(_package_callee(n, fi))
+    return None
+
+
 def _dataclass_fields(ci) -> list[str]:
     return [st.target.id for st in ci.node.body if isinstance(st, ast.AnnAssign) and isinstance(st.target, ast.Name)]
 
 
 def _is_field(e: ast.expr | None, var: str, field: str) -> bool:
     return isinstance(e, ast.Attribute) and isinstance(e.value, ast.Name) and e.value.id == var and e.attr == field
+
+
+def _fields_closure(e: ast.AST | None, fi: FunctionInfo, var: str) -> set[str]:
+    """Fields of ``var`` that ``e`` is computed from, through every definition of the locals it mentions."""
+    out: set[str] = set()
+    if e is None:
+        return out
+    for x in _def_closure([e], fi):
+        out |= _fields_used(x, var)
+    return out
+
+
+def _from_field(e: ast.AST | None, fi: FunctionInfo, var: str, field: str) -> bool:
+    """``e`` is the field itself, or is computed from it and from no other field of the result (e.g. defaults merged in)."""
+    return e is not None and (_is_field(e, var, field) or _fields_closure(e, fi, var) == {field})
 
 
 def _fields_used(e: ast.AST | None, var: str) -> set[str]:
@@ -1709,6 +1817,7 @@ def _fields_used(e: ast.AST | None, var: str) -> set[str]:
 
 @rule("C06.R5")
 def r5_result_fields(corpus: Corpus, rep: Report, tier: str):
+    _use(corpus)
     rep.rule("C06.R5", "DirectiveParsingResult fields flow to the directive constructor, the include mock and parse_directive_block under the matching keyword/position")
     g = get_callgraph(corpus)
     run = corpus.func(f"{RENDERER}.run_directive")
@@ -1796,11 +1905,12 @@ def r5_result_fields(corpus: Corpus, rep: Report, tier: str):
     run_, var_, pos_ = ctx  # the function holding the constructor call and the names of result / position there
     cm: dict[str, ast.expr] = {DOCUTILS_KW[i]: a for i, a in enumerate(ctor.args) if i < len(DOCUTILS_KW)}
     cm.update({k.arg: k.value for k in ctor.keywords if k.arg})
+    cm_raw = dict(cm)
     cm = {kk: (_deref(vv, run_) if kk not in ("state", "state_machine") else vv) for kk, vv in cm.items()}
     site = run_.module.site(ctor)
     kpre = f"{run.fq}|directive constructor"
-    judge(f"{kpre} arguments <- .{F_ARGS}", site, _is_field(cm.get("arguments"), var_, F_ARGS), f"arguments={unparse(cm['arguments']) if 'arguments' in cm else None}: the directive does not get the parsed argument list")
-    judge(f"{kpre} options <- .{F_OPTS}", site, _is_field(cm.get("options"), var_, F_OPTS), f"options={unparse(cm['options']) if 'options' in cm else None}: the directive does not get the validated options")
+    judge(f"{kpre} arguments <- .{F_ARGS}", site, _from_field(cm_raw.get("arguments"), run_, var_, F_ARGS), f"arguments={unparse(cm['arguments']) if 'arguments' in cm else None}: the directive does not get the parsed argument list")
+    judge(f"{kpre} options <- .{F_OPTS}", site, _from_field(cm_raw.get("options"), run_, var_, F_OPTS), f"options={unparse(cm['options']) if 'options' in cm else None}: the directive does not get the validated options")
     ce = cm.get("content")
     content_ok = (
         isinstance(ce, ast.Call)
@@ -1841,6 +1951,7 @@ def r5_result_fields(corpus: Corpus, rep: Report, tier: str):
     if len(ics) != 1 or inc_init is None:
         raise Unsupported(f"run_directive: expected one MockIncludeDirective(...) call, found {len(ics)}")
     ic_call, irun, ivar, ipos = ics[0]
+    im_raw = _callee_param_index(inc_init, ic_call)
     im = {kk: _deref(vv, irun) for kk, vv in _callee_param_index(inc_init, ic_call).items()}
     ip = _pos_params(inc_init)  # renderer, name, klass, arguments, options, body, lineno
     if len(ip) < 7:
@@ -1849,7 +1960,7 @@ def r5_result_fields(corpus: Corpus, rep: Report, tier: str):
     kpre = f"{run.fq}|include mock"
     judge(f"{kpre} parameter 0 (renderer) <- self", site, unparse(im.get(0)) == "self" if im.get(0) is not None else False, "the include mock is not given this renderer")
     for idx, fld in ((3, F_ARGS), (4, F_OPTS), (5, F_BODY)):
-        judge(f"{kpre} parameter {idx} ({ip[idx]}) <- .{fld}", site, _is_field(im.get(idx), ivar, fld), f"{ip[idx]}={unparse(im[idx]) if im.get(idx) is not None else None}: the include mock does not get the parsed {fld}")
+        judge(f"{kpre} parameter {idx} ({ip[idx]}) <- .{fld}", site, _from_field(im_raw.get(idx), irun, ivar, fld), f"{ip[idx]}={unparse(im[idx]) if im.get(idx) is not None else None}: the include mock does not get the parsed {fld}")
     judge(f"{kpre} parameter 6 ({ip[6]}) <- position", site, isinstance(im.get(6), ast.Name) and ipos is not None and im[6].id == ipos, f"{ip[6]}={unparse(im[6]) if im.get(6) is not None else None}")
     # the mock stores each parameter under the attribute run() reads
     stored = {}
@@ -1867,14 +1978,14 @@ def r5_result_fields(corpus: Corpus, rep: Report, tier: str):
         rm: dict[str, ast.expr] = {fields[i]: a for i, a in enumerate(rc.args) if i < len(fields)}
         rm.update({k.arg: k.value for k in rc.keywords if k.arg})
         site = pdt.module.site(rc)
-        is_split = lambda n: isinstance(n, ast.Call) and isinstance(n.func, ast.Attribute) and n.func.attr == "splitlines"
+        is_split = lambda n: _splits_lines(n, pdt) is not None
         is_argcall = lambda n: isinstance(n, ast.Call) and (dotted(n.func) or "").endswith("parse_directive_arguments")
         b, a_, o = rm.get(F_BODY), rm.get(F_ARGS), rm.get(F_OFF)
         judge(
             f"{pdt.fq}|result.{F_BODY} <- lines of the content",
             site,
             b is not None and _derives(b, pdt, is_split) and not _derives(b, pdt, is_argcall),
-            f"{F_BODY}={unparse(b) if b is not None else None} does not derive from content.splitlines()",
+            f"{F_BODY}={unparse(b) if b is not None else None} does not derive from a split of the content into its lines",
         )
         judge(
             f"{pdt.fq}|result.{F_ARGS} <- parse_directive_arguments",
@@ -1900,12 +2011,13 @@ def r5_result_fields(corpus: Corpus, rep: Report, tier: str):
     pbp = _pos_params(pdb)  # content, line_offset, directive, option_presets
     for r in rets:
         e = [_deref(x, pdb) for x in r.value.elts]
+        raw = list(r.value.elts)
         site = pdb.module.site(r)
         if len(e) != 4:
             rep.violation("C06.R5", f"{pdb.fq}|returns the 4-tuple of the docutils contract", site, f"returns {len(e)} values; docutils unpacks (arguments, options, content, content_offset)")
             continue
-        judge(f"{pdb.fq}|return[0] <- .{F_ARGS}", site, _is_field(e[0], v2, F_ARGS), f"first value is `{unparse(e[0])}`, docutils expects the arguments")
-        judge(f"{pdb.fq}|return[1] <- .{F_OPTS}", site, _is_field(e[1], v2, F_OPTS), f"second value is `{unparse(e[1])}`, docutils expects the options")
+        judge(f"{pdb.fq}|return[0] <- .{F_ARGS}", site, _from_field(raw[0], pdb, v2, F_ARGS), f"first value is `{unparse(e[0])}`, docutils expects the arguments")
+        judge(f"{pdb.fq}|return[1] <- .{F_OPTS}", site, _from_field(raw[1], pdb, v2, F_OPTS), f"second value is `{unparse(e[1])}`, docutils expects the options")
         e2f = set(_fields_used(e[2], v2))
         for x in ast.walk(e[2]):
             if isinstance(x, ast.Name):
@@ -2100,7 +2212,7 @@ def _text_conserved(rep: Report, fi: FunctionInfo, seeds: set[str], sinks: list[
         raise Unsupported(f"{fi.qualname}: source of {label} not found")
     carriers = _forward(fi, seeds)
     need = _backward(fi, sinks)
-    if not any(_names_in(s) & carriers for s in sinks):
+    if not any(_names_in(s) & carriers for s in sinks) and not (source_pred is not None and any(source_pred(x) for s_ in sinks for x in ast.walk(s_))):
         rep.violation("C06.R6", f"{fi.fq}|{sink_label} derives from {label}", fi.module.site(sinks[0]), f"{sink_label} (`{short(sinks[0], 60)}`) does not derive from {label}")
         return
     bad = []
@@ -2112,7 +2224,11 @@ def _text_conserved(rep: Report, fi: FunctionInfo, seeds: set[str], sinks: list[
     for n in nodes_:
         if not isinstance(n, ast.Call):
             continue
-        if isinstance(n.func, ast.Attribute) and n.func.attr in NORMALISING_METHODS and carries(n.func.value) and not (_root_name(n.func.value) in fi.module.imports):
+        if _is_splitlines(n) and carries(n.func.value):
+            pass  # splits at \f, \v, \x1c-\x1e, \x85, U+2028/9 too: re-joined with "\n" the text is not the same
+        elif _line_splitter(_package_callee(n, fi)) == "universal" and any(carries(a) for a in n.args):
+            pass
+        elif isinstance(n.func, ast.Attribute) and n.func.attr in NORMALISING_METHODS and carries(n.func.value) and not (_root_name(n.func.value) in fi.module.imports):
             pass
         elif (dotted(n.func) or "").split(".")[-1] in NORMALISING_FUNCS and any(carries(a) for a in list(n.args) + [kw.value for kw in n.keywords]):
             pass
@@ -2127,7 +2243,7 @@ def _text_conserved(rep: Report, fi: FunctionInfo, seeds: set[str], sinks: list[
             if not isinstance(n, ast.Call) or (dotted(n.func) or "").split(".")[-1] in NORMALISING_FUNCS:
                 continue
             h = _package_callee(n, fi)
-            if h is None or h.is_lambda or h.fq == fi.fq:
+            if h is None or h.is_lambda or h.fq == fi.fq or _line_splitter(h) is not None:
                 continue
             seeds_h = _bound_params(h, n, carries)
             if not seeds_h:
@@ -2180,17 +2296,22 @@ def _text_conserved(rep: Report, fi: FunctionInfo, seeds: set[str], sinks: list[
         rep.ok("C06.R6", k, fi.module.site(sinks[0]), f"via {sorted(need & carriers)[:6]}")
     for n in bad:
         op = n.func.attr if isinstance(n.func, ast.Attribute) else (dotted(n.func) or "?")
-        rep.violation(
-            "C06.R6",
-            f"{fi.fq}|{op}() applied to {label} on its way to {sink_label}",
-            fi.module.site(n),
-            f"`{short(_stmt_of(n), 90)}`: {op}() changes characters of {label} before it is parsed as Markdown, so some text (leading indentation, tabs, blank lines, < & quotes ...) "
-            "renders differently from the same text written in place / at top level",
-        )
+        if _is_splitlines(n) or _line_splitter(_package_callee(n, fi)) == "universal":
+            why = (
+                f"{op}() also splits at form feed, vertical tab, \\x1c-\\x1e, \\x85 and U+2028/U+2029, which markdown-it does not count as line ends: when the pieces are "
+                f"joined with '\\n' again such a character in {label} has become a line feed (a paragraph breaks in two, a code line is split) and later lines are counted one off"
+            )
+        else:
+            why = (
+                f"{op}() changes characters of {label} before it is parsed as Markdown, so some text (leading indentation, tabs, blank lines, < & quotes ...) "
+                "renders differently from the same text written in place / at top level"
+            )
+        rep.violation("C06.R6", f"{fi.fq}|{op}() applied to {label} on its way to {sink_label}", fi.module.site(n), f"`{short(_stmt_of(n), 90)}`: {why}")
 
 
 @rule("C06.R6")
 def r6_text_conserved(corpus: Corpus, rep: Report, tier: str):
+    _use(corpus)
     rep.rule("C06.R6", "directive bodies, included files and substitution values reach the nested parse character for character (no strip/expandtabs/escape/dedent... on the way; template engine without output transformation)")
     g = get_callgraph(corpus)
     nrt = corpus.func(f"{RENDERER}.nested_render_text")
@@ -2244,10 +2365,47 @@ def r6_text_conserved(corpus: Corpus, rep: Report, tier: str):
     inc = corpus.func("mocking:MockIncludeDirective.run")
     seeds = set()
     is_read = lambda x: isinstance(x, ast.Call) and isinstance(x.func, ast.Attribute) and x.func.attr in ("read_text", "read", "read_bytes")
+
+    def reads_file(h: FunctionInfo, depth: int = 0) -> bool:
+        """The helper reads the file itself, or calls a package helper that does."""
+        if any(is_read(x) for x in h.local_nodes()):
+            return True
+        if depth >= 2:
+            return False
+        for x in h.local_nodes():
+            if isinstance(x, ast.Call):
+                h2 = _package_callee(x, h)
+                if h2 is not None and not h2.is_lambda and h2.fq != h.fq and reads_file(h2, depth + 1):
+                    return True
+        return False
+
+    def is_src(x: ast.AST) -> bool:
+        if is_read(x):
+            return True
+        if isinstance(x, ast.Call):
+            h = _package_callee(x, inc)
+            return h is not None and not h.is_lambda and h.fq != inc.fq and reads_file(h)
+        return False
+
     for names, val in _bindings(inc):
-        if any(is_read(x) for x in ast.walk(val)):
+        if any(is_src(x) for x in ast.walk(val)):
             seeds |= names
-    _text_conserved(rep, inc, seeds, nrt_text_args(inc), "the included file's text", "the nested parse", source_pred=is_read)
+    # the helpers that produce the text: from the read to what they return
+    seen_h: set[str] = set()
+    for x in inc.local_nodes():
+        if isinstance(x, ast.Call) and not is_read(x) and is_src(x):
+            h = _package_callee(x, inc)
+            if h.fq in seen_h:
+                continue
+            seen_h.add(h.fq)
+            hseeds = set()
+            for names, val in _bindings(h):
+                if any(is_read(y) for y in ast.walk(val)):
+                    hseeds |= names
+            rets = [r.value for r in h.local_nodes() if isinstance(r, ast.Return) and r.value is not None]
+            if rets and (hseeds or any(is_read(y) for r in rets for y in ast.walk(r))):
+                _text_conserved(rep, h, hseeds or {"<read>"}, rets, "the included file's text", f"the text returned by {h.name}()", source_pred=is_read)
+    _text_conserved(rep, inc, seeds, nrt_text_args(inc), "the included file's text", "the nested parse", source_pred=is_src)
     # 6. substitution
     sub = corpus.func(f"{RENDERER}.render_substitution")
     seeds = set()
@@ -2353,6 +2511,7 @@ def _rule_catalogue(corpus: Corpus, rep: Report) -> dict[str, set[str]]:
 
 @rule("C06.R7")
 def r7_rule_lookups(corpus: Corpus, rep: Report, tier: str):
+    _use(corpus)
     rep.rule("C06.R7", "a test '<rule>' in md.get_active_rules()[<chain>] names a rule that markdown-it / the configured plugins register on that chain (a rule looked up in the wrong chain is a constant-false test)")
     cat = _rule_catalogue(corpus, rep)
     sane = {"fence", "paragraph"} <= cat["block"] and "colon_fence" in cat["block"] and {"text", "backticks"} <= cat["inline"] and "inline" in cat["core"] and "emphasis" in cat["inline2"]
@@ -2420,6 +2579,7 @@ def _stmt_of(node):
 
 
 def mutants(corpus: Corpus):
+    _use(corpus)
     out: list = []
     base = corpus.mod("mdit_to_docutils.base")
     mk = corpus.mod("mocking")
@@ -2492,6 +2652,8 @@ def mutants(corpus: Corpus):
     add("c06-colon-fence-name-lowercased", "C06.R2", base, c.args[1] if c and len(c.args) > 1 else None, f"{_seg(base, c.args[1])}.lower()" if c and len(c.args) > 1 else "", "directive name")
     g_ = find_node(cf, lambda n: isinstance(n, ast.If) and isinstance(n.test, ast.BoolOp) and "startswith" in unparse(n.test) and "endswith" in unparse(n.test))
     add("c06-colon-fence-guard-weakened", "C06.R2", base, g_.test if g_ else None, _seg(base, g_.test.values[0]) if g_ else "", "test selecting the directive route")
+    a_ = find_node(cf, lambda n: isinstance(n, ast.Assign) and isinstance(n.targets[0], ast.Name) and n.targets[0].id == "arguments")
+    add("c06-colon-fence-rebinds-arguments", "C06.R2", base, a_, _seg(base, a_) + "\n" + _indent(base, a_) + "arguments = arguments.lower()" if a_ is not None else "", "argument text")
     rd = base.func(R + "render_directive")
     c = find_node(rd, lambda n: is_call(n, "run_directive"))
     a = next((x for x in (c.args if c else []) if unparse(x).endswith(".content")), None)
@@ -2679,14 +2841,31 @@ def mutants(corpus: Corpus):
         add("c06-first-line-joined-into-content", "C06.R5", base, pc.args[2], f"{_seg(base, pc.args[1])} + '\\n' + {_seg(base, pc.args[2])}", "body text")
 
     # ---- R6 (class: a character-changing operation on the inserted text before the nested parse)
-    a = find_node(pdo, lambda n: isinstance(n, ast.Assign) and is_call(n.value, "splitlines") and isinstance(n.value.func.value, ast.Name) and n.value.func.value.id == _pos_params(pdo)[0])
-    add("c06-option-scan-skips-leading-blank-lines", "C06.R6", dm, a.value.func.value if a else None, f"{_pos_params(pdo)[0]}.lstrip()", "lstrip() applied", canary=True)
+    def split_of(f, pname):
+        """(assignment, the argument node naming ``pname``) of ``x = <line split of pname>`` in ``f``."""
+        for n in sorted((x for x in f.local_nodes() if isinstance(x, ast.Assign) and isinstance(x.value, ast.Call)), key=lambda x: x.lineno):
+            v = n.value
+            if _splits_lines(v, f) is None:
+                continue
+            arg = v.func.value if isinstance(v.func, ast.Attribute) and v.func.attr in ("splitlines", "split") else (v.args[0] if v.args else None)
+            if isinstance(arg, ast.Name) and arg.id == pname:
+                return n, arg
+        return None, None
+
+    a, arg = split_of(pdo, _pos_params(pdo)[0])
+    add("c06-option-scan-skips-leading-blank-lines", "C06.R6", dm, arg, f"{_pos_params(pdo)[0]}.lstrip()", "lstrip() applied", canary=True)
     pdt = dm.func("parse_directive_text")
-    a = find_node(pdt, lambda n: isinstance(n, ast.Assign) and is_call(n.value, "splitlines") and isinstance(n.value.func.value, ast.Name) and n.value.func.value.id == _pos_params(pdt)[2])
-    add("c06-body-dedented", "C06.R6", dm, a.value.func.value if a else None, f"dedent({_pos_params(pdt)[2]})", "dedent() applied")
+    a, arg = split_of(pdt, _pos_params(pdt)[2])
+    add("c06-body-dedented", "C06.R6", dm, arg, f"dedent({_pos_params(pdt)[2]})", "dedent() applied")
+    # revert of 21f23ad: universal-newline splits on the way to the nested parse
+    add("c06-revert-21f23ad-body-split-with-splitlines", "C06.R6", dm, a.value if a else None, f"{_pos_params(pdt)[2]}.splitlines()", "splitlines() applied")
+    sl = dm.functions.get("split_lines")
+    sp = find_node(sl, _is_newline_split) if sl is not None else None
+    add("c06-revert-21f23ad-helper-splits-universally", "C06.R6", dm, sp, f"{_seg(dm, sp.func.value)}.splitlines()" if sp is not None else "", "applied to")
     c = find_node(np_, lambda n: is_call(n, "nested_render_text"))
     add("c06-nested-parse-strips-block", "C06.R6", mk, c.args[0] if c and c.args else None, f"{_seg(mk, c.args[0])}.strip()" if c and c.args else "", "strip() applied")
-    a = find_node(inc, lambda n: isinstance(n, ast.Subscript) and isinstance(n.slice, ast.Slice) and is_call(n.value, "splitlines"))
+    a = find_node(inc, lambda n: isinstance(n, ast.Subscript) and isinstance(n.slice, ast.Slice) and isinstance(n.value, ast.Call) and _splits_lines(n.value, inc) is not None)
+    add("c06-revert-21f23ad-include-slice-with-splitlines", "C06.R6", mk, a.value if a is not None else None, f"{_seg(mk, a.value.args[0])}.splitlines()" if a is not None and a.value.args else (_seg(mk, a.value) if a is not None else ""), "splitlines() applied")
     add("c06-include-rstrips-lines", "C06.R6", mk, a, f"[ln.rstrip() for ln in {_seg(mk, a)}]" if a is not None else "", "rstrip() applied")
     c = find_node(inc, lambda n: is_call(n, "read_text"))
     add("c06-include-expands-tabs", "C06.R6", mk, c, f"{_seg(mk, c)}.expandtabs(8)" if c is not None else "", "expandtabs() applied")
